@@ -115,6 +115,17 @@ PyObject* vm_add_memory_page(VmMngr* self, PyObject* args)
 		RAISE(PyExc_TypeError,"known page in memory");
 	}
 
+	if (buf_size == 0) {
+		/* An empty page maps nothing; kept in the sorted page array, it
+		   would hide the page starting at the same address from the
+		   dichotomy */
+		free(mpn->name);
+		free(mpn->ad_hp);
+		free(mpn);
+		Py_INCREF(Py_None);
+		return Py_None;
+	}
+
 	if (buf_size > SIZE_MAX) {
 		      fprintf(stderr, "Size too big\n");
 		      exit(EXIT_FAILURE);
